@@ -367,6 +367,13 @@ package state
 // A block is played only on the state's tip, and only if no two inputs of its
 // transactions reference the same output; pool transactions are undone only when
 // they conflict with the block or are too old.
+// A pool transaction survives the block only if each of its reads is still current: the
+// block does not write the key, or writes exactly the cited version, or the cited version
+// was written by a pool transaction that the BLOCK does not contain (decided by the block's
+// own transaction ids, complete before this loop starts).
+//@ macro puCitedVer(x) = xmodel.MakeVersion(x.RefTxid, x.RefOffset)
+//@ macro blkVer(kv, x) = kv[x.Bucket + "/" + str(x.Key)]
+//@ macro readStillCurrent(m, inBlk, kv, x) = puCitedVer(x) == blkVer(kv, x) || blkVer(kv, x) == "" || (in(m, str(xmodel.GetTxidFromVersion(puCitedVer(x)))) && !inBlk[str(xmodel.GetTxidFromVersion(puCitedVer(x)))])
 //@ func State.processUnconfirmTxs
 //@   property C03
 //@   local hasConflict bool
@@ -382,6 +389,7 @@ package state
 // the CITED version (a pool transaction the block does not contain).
 //@   local localVersion string
 //@   at xmodel.GetTxidFromVersion#1 assert excuse_looks_at_the_cited_version: $0 == localVersion
+//@   loop 6 invariant readers_of_superseded_versions_conflict: 0 <= $i && $i <= len($range) && $range == unconfirmTx.TxInputsExt && (!hasConflict ==> (forall j int :: 0 <= j && j < $i ==> readStillCurrent(unconfirmTxMap, txidsInBlock, keysVersionInBlock, unconfirmTx.TxInputsExt[j])))
 //@   at State.undoUnconfirmedTx assert only_conflicting_or_delayed_are_undone: (hasConflict || tooDelayed) && $0 == unconfirmTx && $3 == batch
 //@   loop 1 invariant seen_distinct: 0 <= $i && $i <= len(block.Transactions) && UTXOKeysInBlock != nil && (forall k string :: in(UTXOKeysInBlock, k) ==> UTXOKeysInBlock[k]) && blkSeen(block, UTXOKeysInBlock, $i) && blkDistinct(block, $i)
 //@   loop 2 invariant seen_distinct_partial: 0 <= $i && $i <= len(tx.TxInputs) && 0 <= $i#1 && $i#1 < len(block.Transactions) && tx == block.Transactions[$i#1] && UTXOKeysInBlock != nil && (forall k string :: in(UTXOKeysInBlock, k) ==> UTXOKeysInBlock[k]) && blkSeen(block, UTXOKeysInBlock, $i#1) && blkDistinct(block, $i#1) && (forall i int :: 0 <= i && i < $i ==> in(UTXOKeysInBlock, blkKey(block, $i#1, i))) && (forall i int, j int :: 0 <= i && i < j && j < $i ==> blkKey(block, $i#1, i) != blkKey(block, $i#1, j)) && (forall a int, i int, j int :: 0 <= a && a < $i#1 && 0 <= i && i < len(block.Transactions[a].TxInputs) && 0 <= j && j < $i ==> blkKey(block, a, i) != blkKey(block, $i#1, j))
